@@ -484,6 +484,17 @@ impl<'tcx> Cx<'tcx> {
         s
     }
 
+    fn type_params(&self, did: DefId) -> Vec<String> {
+        let g = self.tcx.generics_of(did);
+        let mut v = if let Some(p) = g.parent { self.type_params(p) } else { Vec::new() };
+        for p in &g.own_params {
+            if matches!(p.kind, ty::GenericParamDefKind::Type { .. }) {
+                v.push(p.name.to_string());
+            }
+        }
+        v
+    }
+
     fn body_json(&self, def: LocalDefId) -> Option<String> {
         let tcx = self.tcx;
         let did = def.to_def_id();
@@ -532,6 +543,9 @@ impl<'tcx> Cx<'tcx> {
                 let _ = write!(s, ",\"trait_default\":{}", js(&self.path(tr)));
             }
             let _ = write!(s, ",\"name\":{}", js(&tcx.item_name(did).to_string()));
+            // type parameters in the order of a call's `targs` (the parent's first)
+            let tps: Vec<String> = self.type_params(did).iter().map(|n| js(n)).collect();
+            let _ = write!(s, ",\"generics\":[{}]", tps.join(","));
         } else {
             let parent = tcx.typeck_root_def_id(did);
             let _ = write!(s, ",\"root\":{}", js(&self.path(parent)));
